@@ -103,15 +103,16 @@ def pool():
 def separation_part(tier, tag):
     fams = p_val.FAMILIES_QUICK if tier == "quick" else p_val.FAMILIES_THOROUGH
     cases, gstats = p_val.generate(fams, tag + "-sep")
+    cases += p_val.builders(cases)      # the same types built with the client's builder API (b.*)
     common = pool()
     for c in cases:
         c["probes"] = [{"v": v} for v in common]
     reqs = []
     for i, c in enumerate(cases):
-        c["_src"] = vlib.render_program(c["env"], c["ty"])
-        reqs.append(vlib.compile_req(i, [("entry.ts", c["_src"])]))
+        c["_src"] = c.get("_src") or vlib.render_program(c["env"], c["ty"])
+        reqs.append(vlib.build_req(i, c["_bexpr"]) if c.get("via") == "b" else vlib.compile_req(i, [("entry.ts", c["_src"])]))
     comp = vlib.compile_all(reqs)
-    jobs = [{"id": i, "code": r["code"], "root": "T", "probes": common, "ops": ["validate", "hash"]}
+    jobs = [{"id": i, "code": r["code"], "build": r.get("build"), "root": "T", "probes": common, "ops": ["validate", "hash"]}
             for i, r in enumerate(comp) if r["outcome"] == "code"]
     obs = vlib.run_driver(jobs, tag + "-sep")
     recs = []
